@@ -72,6 +72,7 @@ def run(ctx):
     try:
         construct.run(ctx, ctx.scale(64, 256), ctx.scale(2, 20))
         construct.run_children(ctx, ctx.scale(300, 4000))
+        construct.run_expr_children(ctx)
     finally:
         construct.check_one = orig
     if ctx.extra.get('model_available', True) and tap.items:
@@ -89,6 +90,7 @@ def run(ctx):
 def search(ctx, hints):
     construct.run(ctx, 256, ctx.scale(10, 40))
     construct.run_children(ctx, 3000)
+    construct.run_expr_children(ctx)
 
 
 def replay(ctx, data):
@@ -97,5 +99,6 @@ def replay(ctx, data):
     c = check.Ctx('C15', 'quick', ctx.seed)
     construct.run(c, 64, 2)
     construct.run_children(c, 600)
+    construct.run_expr_children(c)
     sig = data.get('signature')
     return not any(f['sig'] == sig for f in c.oracle_fails)
